@@ -321,6 +321,46 @@ def run(chk) -> None:
     chk.count("R25h.loader_table_loops", n_tab)
     chk.floor("R25h.loader_table_loops", 1)
 
+    # ---- R25i: the path entry points hand their own switches on under their own names -------------
+    chk.rule("R25i", "the Linter's path entry points forward each option to the callee's parameter of the same name: where caller and callee both have a parameter called X, the callee's X is not fed from a different parameter of the caller (ignore_files must not receive ignore_non_existent_files)")
+    LINTER_ = "src/sqlfluff/core/linter/linter.py"
+    lcls = repo.cls(LINTER_, "Linter")
+    methods = {x.name: x for x in lcls.body if isinstance(x, ast.FunctionDef)}
+    n_fw = 0
+    for mname, mf in methods.items():
+        cparams = [a.arg for a in mf.args.args + mf.args.kwonlyargs if a.arg != "self"]
+        mcfg = None
+        for c in calls_in(mf):
+            if not (isinstance(c.func, ast.Attribute) and isinstance(c.func.value, ast.Name) and c.func.value.id in ("self", "cls") and c.func.attr in methods):
+                continue
+            callee = methods[c.func.attr]
+            kparams = [a.arg for a in callee.args.args if a.arg not in ("self", "cls")]
+            bound = {}
+            for i, a in enumerate(c.args):
+                if isinstance(a, ast.Starred) or i >= len(kparams):
+                    break
+                bound[kparams[i]] = a
+            for k in c.keywords:
+                if k.arg:
+                    bound[k.arg] = k.value
+            mcfg = mcfg or cfg_of(mf)
+            for kp, a in bound.items():
+                if not isinstance(a, ast.Name) or kp not in cparams:
+                    continue
+                os_ = origins(mcfg, a, mcfg.stmt_of(c))
+                if not os_ or not all(o.kind == "param" for o in os_):
+                    continue
+                src = {o.expr.arg for o in os_}
+                n_fw += 1
+                chk.require(
+                    src == {kp}, "R25i", c,
+                    f"Linter.{mname} passes its parameter {sorted(src)} as `{kp}` of {c.func.attr}() although it has a parameter `{kp}` of its own: the option the caller set is ignored and "
+                    "another one decides (ignore files are not honoured when `ignore_files` receives `ignore_non_existent_files`)",
+                    detail=f"Linter.{mname} -> {c.func.attr}: {kp} forwarded from the parameter of the same name",
+                )
+    chk.count("R25i.same_name_forwardings", n_fw)
+    chk.floor("R25i.same_name_forwardings", 6)
+
     # ---- R25e -----------------------------------------------------------
     f = repo.fn(DISC, "_iter_files_in_path")
     checker = repo.fn(DISC, "_check_ignore_specs")
@@ -561,6 +601,18 @@ def _r25d(chk, repo) -> None:
 from ..selftest import Variant  # noqa: E402
 
 VARIANTS = [
+    Variant(
+        "lint-path-crosses-two-switches", "src/sqlfluff/core/linter/linter.py",
+        "            (path,), fix, ignore_non_existent_files, ignore_files, processes\n",
+        "            (path,), fix=fix, ignore_non_existent_files=ignore_non_existent_files, ignore_files=ignore_non_existent_files, processes=processes\n",
+        "R25i", "lint_path", "seeded C25-6",
+    ),
+    Variant(
+        "quiet-lint-path-by-keyword", "src/sqlfluff/core/linter/linter.py",
+        "            (path,), fix, ignore_non_existent_files, ignore_files, processes\n",
+        "            (path,), fix=fix, ignore_non_existent_files=ignore_non_existent_files, ignore_files=ignore_files, processes=processes\n",
+        "QUIET", None, "R25i: the same call by keyword",
+    ),
     Variant(
         "outer-ignore-sources-first-one-wins", DISC,
         "                yield str(search_path), _filename\n",
